@@ -42,6 +42,8 @@ func pRuleText(r pRule) string {
 		sb.WriteString("  if 5 {\n    zz = 1\n  }\n")
 	case "ret":
 		fmt.Fprintf(&sb, "  return %d + Req.Id\n", r.Ver*1000000)
+	case "cond": // returns only for requests that ask for it: some requests get an EMPTY result map
+		fmt.Fprintf(&sb, "  if Req.Flag {\n    return %d + Req.Id\n  }\n", r.Ver*1000000)
 	}
 	sb.WriteString("end\n")
 	return sb.String()
@@ -56,8 +58,9 @@ func pRulesText(rs []pRule) string {
 }
 
 type ReqObj struct {
-	Id  int64
-	Out int64
+	Id   int64
+	Out  int64
+	Flag bool
 }
 
 type pEvent struct {
@@ -151,6 +154,7 @@ type pStep struct {
 	Probe   []string   `json:"probe"`   // names for IsExist / salience / desc queries
 	Inside  *pStep     `json:"inside"`  // a management op performed from inside rule HoldAt of this request (P.Do)
 	Extra   []string   `json:"extra"`   // extra keys injected with the request (C06)
+	Flag    bool       `json:"flag"`    // Req.Flag: rules of kind "cond" return only when it is set
 	WaitMs  int        `json:"wait_ms"`
 }
 
@@ -456,7 +460,7 @@ func runPoolScenario(sc *pScenario) pObs {
 			lmu.Lock()
 			lives[st.ID] = lv
 			lmu.Unlock()
-			req := &ReqObj{Id: st.ID}
+			req := &ReqObj{Id: st.ID, Flag: st.Flag}
 			data := map[string]interface{}{"Req": req}
 			for _, k := range st.Extra {
 				data[k] = &ReqObj{Id: st.ID}
